@@ -384,10 +384,13 @@ def laws(ctx):
     for it in range(ctx.n(500, 6000)):
         case = c04.gen_case(ctx, kind=c04.KINDS[it % len(c04.KINDS)] if it < 24 else None)
         A = case["dgm"] or c04.more_dgm(ctx, case, n=2)
-        if 8 <= it < 16 and len(A) < 257:
+        heavy = case["kind"] in ("corr", "corr_eq")         # ~4 ms per point and transform (bvn_cdf): a 300-point case costs ~25 s
+        if len(A) >= 257 and heavy and ctx.tier == "quick":
+            A = A[:40]                                      # quick tier: the several-hundred-point class runs on the cheap kernels only
+        if 8 <= it < 16 and len(A) < 257 and not (heavy and ctx.tier == "quick"):
             # every kernel kind once with a diagram of a few hundred points (blocked / vectorised accumulations change behaviour
             # beyond a block size; C04's generator draws this class only with probability 0.012)
-            A = c04.more_dgm(ctx, case, n=r.randint(257, 600))
+            A = c04.more_dgm(ctx, case, n=r.randint(257, 300) if ctx.tier == "quick" else r.randint(257, 600))
         if len(A) >= 257:
             ctx.count("laws_diagrams_above_256_points")
         B = c04.more_dgm(ctx, case)
